@@ -7,7 +7,7 @@ import contextlib
 from . import core
 
 
-def run(args, groups=None, keep_stdout=False, qmode="round"):
+def run(args, groups=None, keep_stdout=False, qmode="round", out_path=None, fault=None):
     """args: list of command-line arguments for pdb2pqr.main.run_pdb2pqr.
     Returns dict(ok, exc, exc_type, missed, pka, bio, tracer)."""
     core.use_repo()
@@ -19,6 +19,9 @@ def run(args, groups=None, keep_stdout=False, qmode="round"):
 
         tr = Tracer()
         tr.qmode = qmode
+        tr.out_path = out_path
+        tr.fault = fault
+        tr.fault_fired = False
         tr.install(groups)
     out = {"ok": False, "exc": None, "exc_type": "", "missed": None, "pka": None, "bio": None, "tracer": tr}
     try:
